@@ -396,24 +396,56 @@ def in_known_class(c):
     return c[0] == 1 and bool(c[3]) and colour_mode(c[1]) != "auto"
 
 
-def compare(c, iv, mv):
+def judge(c, iv, mv):
+    """('ok', None) | ('fail', text): the property fails on this case | ('corr', text): the property
+    holds but the bytes are not the model's (the model no longer describes the code)"""
     d = style_oracle(c, iv) if c[0] == 0 else proc_oracle(c, iv)[0]
     if d is not None:
-        return d + ("" if iv == mv else " [model: %r]" % (mv,))
+        return ("fail", d + ("" if iv == mv else " [model: %r]" % (mv,)))
     if iv != mv:
-        # the property holds on this case but the bytes are not the model's (e.g. another colour for a
-        # level): the model no longer describes the code -- DESIGN 2.4, broken correspondence
-        import vcommon
-        raise vcommon.Broken("corr:C18/stream-bytes",
-                             "property oracle passes but impl %r != model %r on case %r" % (iv, mv, describe(c)))
-    return None
+        if in_known_class(c):
+            # the recorded finding does not reproduce on this case and the property holds: quiet
+            return ("ok", None)
+        return ("corr", "property oracle passes but impl %r != model %r on case %r" % (iv, mv, describe(c)))
+    return ("ok", None)
+
+
+def compare(c, iv, mv):
+    k, d = judge(c, iv, mv)
+    return d if k == "fail" else None
+
+
+def _wrote(c, v):
+    if not (isinstance(v, list) and len(v) == 2):
+        return None
+    return (v[0] if c[2] == 0 else v[1]) != b""
 
 
 def known_finding(c, iv, mv):
-    # only the recorded deviation: inside the class, the crate behaves exactly as the faithful model
-    # predicts, and what the property oracle objects to is the write decision
-    if in_known_class(c) and iv == mv:
+    # only the recorded deviation: inside the class, what the property oracle objects to is the write
+    # decision, and the crate decides exactly as the faithful model predicts
+    if in_known_class(c) and _wrote(c, iv) is not None and _wrote(c, iv) == _wrote(c, mv):
         d, is_decision = proc_oracle(c, iv)
         if d is not None and is_decision:
             return FINDING
     return None
+
+
+def extra_checks(ctx, cases_, impl_lines, model_lines_):
+    """DESIGN 2.4: if no case violates the property but some outputs differ from the model (e.g. a
+    different colour for a level), the correspondence itself is broken"""
+    vc = ctx["vc"]
+    corr = None
+    for c, il, ml in zip(cases_, impl_lines, model_lines_):
+        try:
+            iv, mv = vc.parse(il), vc.parse(ml)
+        except Exception:
+            return []
+        k, d = judge(c, iv, mv)
+        if k == "fail" and known_finding(c, iv, mv) is None:
+            return []          # a real failing input exists and is reported by the per-case comparison
+        if k == "corr" and corr is None:
+            corr = d
+    if corr is not None:
+        raise vc.Broken("corr:C18/stream-bytes", corr)
+    return []
